@@ -52,9 +52,9 @@ fn get_tlds<P: AsRef<path::Path>>(p: P) -> Result<Vec<path::PathBuf>, MonorailEr
 
     for entry in std::fs::read_dir(p)? {
         let entry = entry?;
-        let metadata = entry.metadata()?;
-
-        if metadata.is_dir() {
+        // a symbolic link to a directory counts (DirEntry::metadata would not follow it);
+        // remove_dir_all removes such a link itself, not what it points to
+        if entry.path().is_dir() {
             directories.push(entry.path());
         }
     }
